@@ -40,12 +40,14 @@ def _t_ctxm(a=0): return ('ctx-result', a, ('ctxm', (a,), {}))
 def _t_fac1(x): return ('result', ['fac1', x], ('fac1', (x,), {}))
 def _t_fac2(x, y=5, *, z=None): return ('result', ['fac2', x, y, z], ('fac2', (x, y), {'z': z}))
 def _t_slow(v, ticks=0): return ('result', ['slow', v], ('slow', (v, ticks), {}))
+def _t_whoami(): return ('ctx-only', None, ('whoami', (), {}))
+def _t_ctxp(a=0): return ('ctx-result', a, ('ctxp', (a,), {}))
 def _t_vm(a, b=0): return ('result', ['vm', a, b], ('view.vm', (a, b), {}))
 
 
 TWINS = {
     'ok': _t_ok, 'noargs': _t_noargs, 'echo': _t_echo, 'kwonly': _t_kwonly, 'rpcerr': _t_rpcerr,
-    'typed': _t_typed, 'slow': _t_slow, 'fac1': _t_fac1, 'fac2': _t_fac2, 'boom': _t_boom, 'ctxm': _t_ctxm, 'view.vm': _t_vm,
+    'typed': _t_typed, 'whoami': _t_whoami, 'ctxp': _t_ctxp, 'slow': _t_slow, 'fac1': _t_fac1, 'fac2': _t_fac2, 'boom': _t_boom, 'ctxm': _t_ctxm, 'view.vm': _t_vm,
 }
 
 
@@ -119,6 +121,9 @@ def element(req: Dict[str, Any], exp: Expected, ctx_token: Any) -> Tuple[Any, st
             elif outcome == 'ctx-result':
                 kind = 'ok'
                 resp = {'jsonrpc': '2.0', 'id': id_, 'result': [ctx_token, value]}
+            elif outcome == 'ctx-only':
+                kind = 'ok'
+                resp = {'jsonrpc': '2.0', 'id': id_, 'result': [ctx_token]}
             elif outcome == 'error':
                 code, message, data = value
                 kind = 'rpc-error'
